@@ -44,6 +44,19 @@ m9 = _stmt("m9_attach_panic", 'panic!("Already installed a global {NAME} sink,',
 m10 = _stmt("m10_store", "*write = Some((BoxEntrySink::new(sink), Box::new(handle)));", "write.verif_store(BoxEntrySink::new(sink), Box::new(handle));",
             "M10: assignment through the write guard (DerefMut), as a method that carries C17's obligation: an attached sink is never overwritten")
 
+m11 = _stmt("m11_tl_with", "THREAD_LOCAL_TEST_SINK.with(", "verif_tl_with(", "M11: access to the thread-local cell (LocalKey::with runs the closure on this thread's cell)")
+m12 = _stmt("m12_tl_store", "*borrowed = sink;", "borrowed.verif_store(sink);",
+            "M12: assignment through the RefMut (DerefMut), as a method that carries C17's obligation: an installed test sink is never replaced by another")
+
+
+def m13_panic(text):
+    """M13: panic!( -> verif_documented_panic(   (see M6)"""
+    n = text.count("panic!(")
+    return text.replace("panic!(", "verif_documented_panic("), n
+
+
+VARIANT_DEFAULTS = {"tl": "contract"}
+
 PRELUDE = r'''
 pub trait Entry {}
 pub struct VerifGlobal {}
@@ -144,6 +157,37 @@ impl SinkWriteGuard {
 impl AttachHandle {
     #[verifier::external_body] pub fn new<F: FnOnce() -> ()>(join: F) -> AttachHandle { unimplemented!() }
 }
+// ---- the thread-local test sink: LocalKey<RefCell<Option<BoxEntrySink>>>, as this thread sees it --------------------------
+pub uninterp spec fn tl_stored(s: Option<BoxEntrySink>) -> bool;
+#[verifier::external_body] pub struct TlCell { _p: u8 }
+#[verifier::external_body] pub struct TlRefMut { _p: u8 }
+impl TlCell {
+    #[verifier::external_body] pub fn borrow_mut(&self) -> (r: TlRefMut) ensures r@ == tl_sink() { unimplemented!() }
+    // RefCell::replace / take, with the obligation C17 puts on every caller: an installed test sink is never replaced by ANOTHER one
+    #[verifier::external_body]
+    pub fn replace(&self, s: Option<BoxEntrySink>) -> (r: Option<BoxEntrySink>)
+        requires !(tl_sink() is Some && s is Some),                       // OBL installed_thread_local_sink_is_never_replaced
+        ensures r == tl_sink(), tl_stored(s),
+    { unimplemented!() }
+    #[verifier::external_body] pub fn take(&self) -> (r: Option<BoxEntrySink>) ensures r == tl_sink(), tl_stored(None::<BoxEntrySink>) { unimplemented!() }
+}
+impl TlRefMut {
+    pub uninterp spec fn view(&self) -> Option<BoxEntrySink>;
+    #[verifier::external_body] pub fn is_some(&self) -> (r: bool) ensures r == (self@ is Some) { unimplemented!() }
+    #[verifier::external_body] pub fn is_none(&self) -> (r: bool) ensures r == (self@ is None) { unimplemented!() }
+    // M12: `*borrowed = sink`
+    #[verifier::external_body]
+    pub fn verif_store(&mut self, s: Option<BoxEntrySink>)
+        requires !(old(self)@ is Some && s is Some),                      // OBL installed_thread_local_sink_is_never_overwritten
+        ensures final(self)@ == s, tl_stored(s),
+    { unimplemented!() }
+}
+// M11: LocalKey::with - the closure runs once, on this thread's cell
+#[verifier::external_body]
+pub fn verif_tl_with<R, F: FnOnce(&TlCell) -> R>(f: F) -> (r: R)
+    requires forall|c: &TlCell| #[trigger] f.requires((c,)),
+    ensures exists|c: &TlCell| #[trigger] f.ensures((c,), r),
+{ unimplemented!() }
 // M6: `panic!(..)` - control never continues past it
 #[verifier::external_body] pub fn verif_documented_panic(msg: &str) ensures false { unimplemented!() }
 #[verifier::external_body] pub struct SinkReadGuard { _p: u8 }
@@ -172,6 +216,20 @@ ITEMS = [
     dict(kind="fn", file=G, inside_macro=_M, impl=None, name="get_test_sink", ret="r", label="get_test_sink",
          rules={"m2_try_current": 1, "m3_thread_local": 1, "m4_runtime_sinks": 1}, pre_rewrites=[m2, m3, m4],
          ensures="r == test_sink_now(),     // OBL test_sink_precedence_thread_then_runtime"),
+    # thread-local set_test_sink: full contract (the closure keeps its shape and gets a contract) ...
+    dict(kind="fn", file=G, inside_macro=_M, impl=None, name="set_test_sink", sig_has="(sink: Option<BoxEntrySink>)", label="set_test_sink", only_if={"tl": "contract"},
+         rules={"m11_tl_with": 1, "m12_tl_store": 1, "m13_panic": 1}, pre_rewrites=[m11, m12, m13_panic], unpinned=["m13_panic"],
+         closures={1: dict(params="cell: &TlCell", ret="(p: bool)", ensures="p == (tl_sink() is Some && verif_sink0 is Some), !p ==> tl_stored(verif_sink0),")},
+         proofs=[("before", "let should_panic = verif_tl_with (", "let ghost verif_sink0 = sink;")],
+         ensures="""
+            // C17: installing a second thread-local test sink never returns (it panics), and leaves the installed one alone
+            // (precondition of the store); otherwise the given value is stored (Some: install, None: restore)
+            !(tl_sink() is Some && sink is Some),                                                            // OBL second_thread_local_install_panics
+            tl_stored(sink),                                                                                 // OBL thread_local_sink_is_stored
+         """),
+    # ... and the weaker variant consulted when that shape is gone: only the obligations carried by the cell's stand-ins
+    dict(kind="fn", file=G, inside_macro=_M, impl=None, name="set_test_sink", sig_has="(sink: Option<BoxEntrySink>)", label="set_test_sink", only_if={"tl": "bare"},
+         rules={"m11_tl_with": 1, "m13_panic": 1}, pre_rewrites=[m11, m12, m13_panic], unpinned=["m13_panic", "m12_tl_store"]),
     dict(kind="fn", file=G, inside_macro=_M, impl=_IMPL, name="attach", ret="r", label="attach",
          impl_header_override="impl VerifGlobal",
          sig_replace=[("(sink, handle): (impl EntrySink<BoxEntry> + Send + Sync + 'static, impl Any + Send + Sync),", "sink: VerifS, handle: VerifH,"),
